@@ -118,6 +118,7 @@ type Exec struct {
 	UsedTrusted map[string]bool
 	UsedContracts map[string]bool
 	axiomDone     map[string]bool
+	appendBase    ssa.Value // SSA value of the slice the current append call extends
 	readTrack     map[string]bool // heap keys touched while verifying a function with a reads clause
 	Abstract      map[string]bool // library callees abstracted for the function under verification
 	Inlined    map[string]bool
@@ -390,6 +391,7 @@ func (ex *Exec) assignPhis(st *State, b *ssa.BasicBlock, prev *ssa.BasicBlock) {
 		st.Fr.Env[phi] = v
 		if phi.Comment != "" {
 			st.Fr.Names[phi.Comment] = v
+			delete(st.Fr.ZeroNamed, phi.Comment) // re-bound by the phi: no longer "only a zero constant"
 			delete(st.Fr.Addr, phi.Comment)
 		}
 	}
